@@ -246,6 +246,10 @@ func c01(c *Ctx) {
 			r.Pass("R1.bounds", k, pos, "discharged locally: "+why)
 			continue
 		}
+		if why := inlinedCopy(p, s, want); why != "" {
+			r.Pass("R1.bounds", k, pos, why)
+			continue
+		}
 		if dump {
 			fmt.Fprintf(os.Stderr, "UNTRIAGED\t%s\t%s\t%s\t%s\tx%d\t%s\t%s\n", s.FnName, s.Kind, s.Expr, pos, got[k], srcLine(p, s), s.Raw)
 		}
@@ -284,6 +288,7 @@ func c01other(c *Ctx, roots []*ssa.Function, reach map[*ssa.Function]bool, tab *
 	sort.Slice(fns, func(i, j int) bool { return fns[i].String() < fns[j].String() })
 	count := map[string]int{}
 	posOf := map[string]string{}
+	proved := map[string]string{}
 	for _, fn := range fns {
 		name := core.FuncName(fn)
 		for _, b := range fn.Blocks {
@@ -294,6 +299,11 @@ func c01other(c *Ctx, roots []*ssa.Function, reach map[*ssa.Function]bool, tab *
 						continue
 					}
 					// a type switch lowers to comma-ok asserts; a plain x.(T) stays
+					if why := atomicValueAssertProved(p, x); why != "" {
+						proved[name+" TypeAssert "+types.TypeString(x.AssertedType, func(pk *types.Package) string { return pk.Name() })+" (atomic.Value)"] = why
+						posOf[name+" TypeAssert "+types.TypeString(x.AssertedType, func(pk *types.Package) string { return pk.Name() })+" (atomic.Value)"] = p.Pos(core.InstrPos(x))
+						continue
+					}
 					k := name + " TypeAssert " + types.TypeString(x.AssertedType, func(pk *types.Package) string { return pk.Name() })
 					count[k]++
 					posOf[k] = p.Pos(core.InstrPos(x))
@@ -312,6 +322,14 @@ func c01other(c *Ctx, roots []*ssa.Function, reach map[*ssa.Function]bool, tab *
 				}
 			}
 		}
+	}
+	var pks []string
+	for k := range proved {
+		pks = append(pks, k)
+	}
+	sort.Strings(pks)
+	for _, k := range pks {
+		r.Pass("R3.assert-panic", k, posOf[k], "proved: "+proved[k])
 	}
 	var ks []string
 	for k := range count {
@@ -520,6 +538,16 @@ func locallyGuarded(s core.BoundsSite) string {
 				if _, isC := core.ConstInt(bound); isC {
 					return ""
 				}
+				// x[:n] with n, err := ssz.DivideInt2(len(x), k, max), k >= 1: n = len(x)/k <= len(x)
+				if x.Low == nil && x.High != nil {
+					if ex, ok := core.Unwrap(x.High).(*ssa.Extract); ok && ex.Index == 0 {
+						if dc, ok := ex.Tuple.(*ssa.Call); ok && strings.HasSuffix(core.CalleeID(dc), "fastssz.DivideInt2") && len(dc.Call.Args) == 3 {
+							if k, isC := core.ConstInt(dc.Call.Args[1]); isC && k >= 1 && core.IsLenOf(dc.Call.Args[0], func(v ssa.Value) bool { return v == x.X }) {
+								return "the bound is DivideInt2(len(x), k >= 1, ...): at most len(x)"
+							}
+						}
+					}
+				}
 				g := core.AnyFact(func(f core.Fact) bool {
 					return core.CmpFact(f, func(op token.Token, a, c ssa.Value) bool {
 						return op == token.GEQ && wide64(a) && core.IsLenOf(a, func(v ssa.Value) bool { return v == x.X }) && core.SameExpr(core.Unwrap(c), core.Unwrap(bound))
@@ -582,4 +610,91 @@ func wide64(v ssa.Value) bool {
 		return true
 	}
 	return false
+}
+
+// inlinedCopy: the compiler attributes a check to a call expression when it inlined the callee:
+// the check is a copy of one inside that function. It is covered when the site is a call of a
+// module function all of whose own unproven checks of that kind are triaged (the invariant
+// written there is about the callee's own data, e.g. "crypto.Keccak256 returns 32 bytes").
+func inlinedCopy(p *core.Prog, s core.BoundsSite, want map[string]*triageEntry) string {
+	call, ok := s.Node.(*ast.CallExpr)
+	if !ok || s.Fn == nil {
+		return ""
+	}
+	pk, _ := p.FileOf(s.Pos)
+	if pk == nil {
+		return ""
+	}
+	var callee *types.Func
+	switch fun := ast.Unparen(call.Fun).(type) {
+	case *ast.Ident:
+		callee, _ = pk.TypesInfo.Uses[fun].(*types.Func)
+	case *ast.SelectorExpr:
+		if sel, ok := pk.TypesInfo.Selections[fun]; ok {
+			callee, _ = sel.Obj().(*types.Func)
+		} else {
+			callee, _ = pk.TypesInfo.Uses[fun.Sel].(*types.Func)
+		}
+	}
+	if callee == nil || callee.Pkg() == nil || !strings.HasPrefix(callee.Pkg().Path(), core.ModPath) {
+		return ""
+	}
+	name := strings.ReplaceAll(strings.ReplaceAll(callee.FullName(), core.ModPath+"/", ""), core.ModPath, "")
+	var reasons []string
+	for k, e := range want {
+		if e.Func == name && e.Kind == s.Kind {
+			_ = k
+			reasons = append(reasons, e.Reason)
+		}
+	}
+	if len(reasons) == 0 {
+		return ""
+	}
+	sort.Strings(reasons)
+	return "copy of a triaged check inside " + name + " that the compiler inlined here: " + reasons[0]
+}
+
+// atomicValueAssertProved: x = v.(T) where v is field.Load() of an atomic.Value struct field and
+// every Store into that field in the module stores a T: the assertion cannot fail once a value
+// was stored (a Load before any Store yields nil and would panic on the conversion - the
+// constructor must store first, which C06.R5/C17.R3 check for the radius).
+func atomicValueAssertProved(p *core.Prog, x *ssa.TypeAssert) string {
+	var typ, field string
+	core.Derives(x.X, func(v ssa.Value) bool {
+		c, ok := v.(*ssa.Call)
+		if ok && core.CalleeID(c) == "sync/atomic.(*Value).Load" && len(c.Call.Args) == 1 {
+			if t, f, _, ok := core.FieldRef(c.Call.Args[0]); ok {
+				typ, field = t, f
+			}
+		}
+		return false
+	}, core.DeriveOpts{})
+	if field == "" {
+		return ""
+	}
+	n := 0
+	for _, fn := range p.ModuleFuncs() {
+		bad := false
+		core.Calls(fn, func(ci ssa.CallInstruction) {
+			if core.CalleeID(ci) != "sync/atomic.(*Value).Store" || len(ci.Common().Args) != 2 {
+				return
+			}
+			t, f, _, ok := core.FieldRef(ci.Common().Args[0])
+			if !ok || f != field || t != typ {
+				return
+			}
+			n++
+			mi, ok := ci.Common().Args[1].(*ssa.MakeInterface)
+			if !ok || !types.Identical(mi.X.Type(), x.AssertedType) {
+				bad = true
+			}
+		})
+		if bad {
+			return ""
+		}
+	}
+	if n == 0 {
+		return ""
+	}
+	return fmt.Sprintf("all %d Store calls into %s.%s store a %s", n, typ, field, types.TypeString(x.AssertedType, func(pk *types.Package) string { return pk.Name() }))
 }
